@@ -256,6 +256,21 @@ let rec collect_nodes (t : node) (acc : ((int * int) * string) list) : ((int * i
         collect_nodes r (collect_nodes l acc)
 
 (* the expected raw store comes from the proved model (Store.expected_store, StoreFacts) *)
+(* what the implementation printed for the operation being stepped (set by the replay loop): only
+   environment choices are read from it (the flush positions of a recorded deletion) *)
+let current_expected : string option ref = ref None
+
+let show_store (pre : string) (store : ((z * z) * entry) list) : string =
+  let kstr (v, n) = Printf.sprintf "%d.%d" (int_of_z v) (int_of_z n) in
+  let show_entry (e : entry) : string =
+    match e with
+    | EEmpty -> "E"
+    | ERef k -> "R:" ^ kstr k
+    | ENode (SLeaf (k, v)) -> "N:L," ^ hex_of_bytes k ^ "," ^ hex_of_bytes v
+    | ENode (SInner (k, h, sz, hash, l, r)) ->
+        Printf.sprintf "N:I,%d,%d,%s,%s,%s,%s" (int_of_z h) (int_of_z sz) (hex_of_bytes k) (hex_of_bytes hash) (kstr l) (kstr r) in
+  pre ^ "[" ^ String.concat ";" (List.map (fun (k, e) -> kstr k ^ "=" ^ show_entry e) store) ^ "]other=0"
+
 let expected_nodes (st : mstate) : string =
   let kstr (v, n) = Printf.sprintf "%d.%d" (int_of_z v) (int_of_z n) in
   let show_entry (e : entry) : string =
@@ -409,12 +424,36 @@ let make_m1 (params : string list) : machine =
   let st = ref (if iv = "-" then m_init Z0 false else m_init (z_of_string iv) true) in
   let prev = ref !st in
   let fast = ref (cfg_fast params) in
+  (* versions whose root node sits under (v,0) in the physical store (PruneAlgo.phys_of) *)
+  let rk : z list ref = ref [] in
+  let out_of_contract (o : op) : bool =
+    not (in_contractb !st o) && (match m_step !st o with (_, XErr) -> false | _ -> true) in
+  (* the physical deletion (PruneAlgo.prune_forest) under a flush schedule; updates [rk] *)
+  let phys_prune (n : string) (sched : bool list) : string * string =
+    let pre = !st in
+    let s', x = m_step pre (OPrune (z_of_string n)) in
+    match prune_forest_sha true !rk pre.forest sched (z_of_string n), x with
+    | POk ((disk, log), fls), XOk ->
+        st := s';
+        let r' = rekeyed disk in
+        let ok = (disk = phys_of r' s'.forest) in
+        rk := r';
+        let kstr (v, n) = Printf.sprintf "%d.%d" (int_of_z v) (int_of_z n) in
+        let ops = List.filter_map (function
+            | WSet (KNode k, _) -> Some ("s" ^ kstr k) | WDel (KNode k) -> Some ("d" ^ kstr k) | _ -> None) log in
+        let rec nat_to_int = function O -> 0 | S m -> 1 + nat_to_int m in
+        if not ok then ("modelfail:physical store differs from phys_of", "")
+        else ("ok", Printf.sprintf "ops=%s;fl=%s" (String.concat "," ops)
+                      (String.concat "," (List.map (fun i -> string_of_int (nat_to_int i)) fls)))
+    | PErr, XErr -> st := s'; ("err", "ops=;fl=")
+    | POk _, _ -> ("modelfail:physical deletion succeeds, MTree.step fails", "")
+    | PErr, _ -> ("modelfail:physical deletion fails", "")
+    | PNoVersion, _ -> ("modelfail:physical deletion: version missing", "")
+    | PFuel, _ -> ("modelfail:physical deletion: out of fuel", "") in
   let rec step1 (toks : string list) : string =
         match toks with
-        | [ ("prune" | "lvfo") as o; n ]
-          when (let op = if o = "prune" then OPrune (z_of_string n) else OLvfo (z_of_string n) in
-                not (in_contractb !st op)
-                && (match m_step !st op with (_, XErr) -> false | _ -> true)) ->
+        | [ ("prune" | "lvfo" | "wprune") as o; n ]
+          when out_of_contract (if o = "lvfo" then OLvfo (z_of_string n) else OPrune (z_of_string n)) ->
             (* accepted by the model but outside the contract (deleting the version the working tree
                is based on, rolling back to version 0): not compared from here on *)
             raise Out_of_contract
@@ -472,6 +511,38 @@ let make_m1 (params : string list) : machine =
                 st := s';
                 match x with XPair (_, v) -> show_out v | _ -> "err"
               end
+            end
+        | [ "audit"; "phys" ] -> show_store "ap" (phys_of !rk !st.forest)
+        | [ "prune"; n ] ->
+            (* the result of the physical deletion does not depend on the flush schedule
+               (PruneAlgoFacts): the re-keyed roots are tracked with the empty schedule *)
+            (match phys_prune n [] with
+             | (("ok" | "err") as r, _) -> r
+             | (bad, _) -> bad)
+        | [ "lvfo"; v ] ->
+            let s', x = m_step !st (OLvfo (z_of_string v)) in
+            st := s';
+            (match x with XOk -> rk := List.filter (fun w -> int_of_z w <= int_of_string v) !rk | _ -> ());
+            show_out x
+        | [ "wprune"; n ] ->
+            let impl = (match !current_expected with Some e -> e | None -> "") in
+            if starts_with "wp-nowrap(" impl || impl = "" then
+              (match phys_prune n [] with
+               | (("ok" | "err") as r, _) -> "wp-nowrap(" ^ r ^ ")"
+               | (bad, _) -> bad)
+            else begin
+              (* flush positions observed on the real database: wp(<st>;ops=..;fl=i,j,..) *)
+              let fl =
+                (try
+                   let i = Str.search_forward (Str.regexp_string ";fl=") impl 0 in
+                   let body = String.sub impl (i + 4) (String.length impl - i - 5) in
+                   if body = "" then [] else List.map int_of_string (String.split_on_char ',' body)
+                 with Not_found | Failure _ -> []) in
+              let m = List.fold_left max (-1) fl in
+              let sched = List.init (m + 1) (fun i -> List.mem i fl) in
+              match phys_prune n sched with
+              | (("ok" | "err") as r, body) -> "wp(" ^ r ^ ";" ^ body ^ ")"
+              | (bad, _) -> bad
             end
         | [ "audit"; "nodes" ] -> expected_nodes !st
         | [ "audit"; "raw" ] -> expected_nodes !st
@@ -756,6 +827,7 @@ let () =
                | _ -> (line, None)
              in
              incr ops;
+             current_expected := expected;
              let got = try m.step (split_ws opstr) with
                | Failure msg -> "modelfail:" ^ msg
                | Out_of_contract -> "out-of-contract" in
